@@ -49,6 +49,29 @@ pub fn monitor(b: &ChessBoard) -> String {
             }
         } else if t.is_some() || c.is_some() || p.is_some() { bad.push("empty-some") }
     }
+    // every held castling right has that side's king and rook on their home squares
+    for c in [Color::White, Color::Black] {
+        let r = b.get_castle_rights(c);
+        let rank = if c == Color::White { 0u8 } else { 7u8 };
+        let own = |t: PieceType, i: u8| matches!(b.get_piece_on(sq(i)), Some(p) if p.0 == t && p.1 == c);
+        if r.has_any() && !own(PieceType::King, rank * 8 + 4) { bad.push("right-without-king") }
+        if r.has_kingside() && !own(PieceType::Rook, rank * 8 + 7) { bad.push("right-without-rook") }
+        if r.has_queenside() && !own(PieceType::Rook, rank * 8) { bad.push("right-without-rook") }
+    }
+    // an en-passant square is empty, on the sixth rank of the side to move, with the just-moved enemy pawn in front of it
+    // (towards the side to move) and an empty origin square behind it
+    if let Some(e) = b.get_en_passant() {
+        let i = e.to_int() as i32;
+        let white = b.get_side_to_move() == Color::White;
+        let (want_rank, pawn_at, origin) = if white { (5, i - 8, i + 8) } else { (2, i + 8, i - 8) };
+        let enemy = if white { Color::Black } else { Color::White };
+        if i / 8 != want_rank { bad.push("ep-rank") }
+        else {
+            if !b.is_empty_square(sq(i as u8)) { bad.push("ep-occupied") }
+            if !matches!(b.get_piece_on(sq(pawn_at as u8)), Some(p) if p.0 == PieceType::Pawn && p.1 == enemy) { bad.push("ep-no-pawn") }
+            if !b.is_empty_square(sq(origin as u8)) { bad.push("ep-origin-occupied") }
+        }
+    }
     bad.sort();
     bad.dedup();
     if bad.is_empty() { "ok".into() } else { bad.join("+") }
